@@ -87,6 +87,13 @@ pub fn render_obo(rng: &mut Rng, f: &Facts, flags: &Flags, case: &mut Case, oo: 
         for p in parents {
             l.push(format!("is_a: {} ! {}", hp(p), term_name(f, p)));
         }
+        if rng.chance(1, 10) {
+            // an `is_a` row WITHOUT the ` ! name` comment is no link (the value is cut at its first
+            // space; without one the row is skipped) - and the rows behind it still count
+            let at = l.iter().position(|x| x.starts_with("is_a: ")).unwrap_or(l.len());
+            l.insert(at, format!("is_a: {}", hp(rng.range(1, 9_999_999) as u32)));
+            case.stat("bare_is_a_rows", 1);
+        }
         let fl = flags.iter().find(|x| x.0 == *id);
         if let Some((_, obs, repl)) = fl {
             if *obs {
@@ -141,6 +148,19 @@ pub fn render_obo(rng: &mut Rng, f: &Facts, flags: &Flags, case: &mut Case, oo: 
     }
     let mut all = vec![header.join("\n")];
     all.extend(blocks);
+    if !oo.keep_order && all.len() > 2 {
+        if rng.chance(1, 8) {
+            // the header block is recognised by its first line wherever it stands: move it
+            let h = all.remove(0);
+            let at = rng.range(1, all.len() as u64) as usize;
+            all.insert(at, h);
+            case.stat("obo_header_not_first", 1);
+        } else if !oo.data_version && rng.chance(1, 3) {
+            // no header block at all (there is no version to lose)
+            all.remove(0);
+            case.stat("obo_without_header", 1);
+        }
+    }
     let mut s = all.join("\n\n");
     s.push_str(if rng.chance(1, 3) { "\n\n" } else { "\n" });
     s
@@ -194,7 +214,9 @@ pub fn render_genes(rng: &mut Rng, f: &Facts, transitive: bool, case: &mut Case)
     let header = *rng.pick(if transitive { P2G_HEADERS } else { G2P_HEADERS });
     let mut rows = vec![];
     for (g, t) in &f.links[0] {
-        rows.push(gene_row(rng, transitive, &g.to_string(), &rec_name(f, 0, *g), &hp(*t), &term_name(f, *t)));
+        // (one row in twelve writes the term id without zero padding: `HP:300` is the same id)
+        let tid = if rng.chance(1, 12) { format!("HP:{t}") } else { hp(*t) };
+        rows.push(gene_row(rng, transitive, &g.to_string(), &rec_name(f, 0, *g), &tid, &term_name(f, *t)));
         case.stat("gene_rows", 1);
     }
     finish(rng, header, rows)
@@ -247,7 +269,8 @@ pub fn render_hpoa(rng: &mut Rng, f: &Facts, case: &mut Case) -> (String, u64) {
     let mut rows = vec![];
     for (k, db) in [(1usize, "OMIM"), (2usize, "ORPHA")] {
         for (d, t) in &f.links[k] {
-            rows.push(hpoa_row(rng, db, &d.to_string(), &rec_name(f, k, *d), "", &hp(*t)));
+            let tid = if rng.chance(1, 12) { format!("HP:{t}") } else { hp(*t) };
+            rows.push(hpoa_row(rng, db, &d.to_string(), &rec_name(f, k, *d), "", &tid));
             case.stat(if k == 1 { "omim_rows" } else { "orpha_rows" }, 1);
         }
     }
@@ -311,6 +334,16 @@ pub fn normalise(f: &mut Facts, flags: &mut Flags) {
 }
 
 pub fn c09(rng: &mut Rng, _tier: &str, idx: usize) -> Case {
+    if idx == 5 || idx == 6 {
+        // more than 65 535 `[Term]` stanzas through either loader (implementation against the
+        // harness oracle only): every term of the file is there with its name and links, rows on
+        // terms late in the file land on those terms
+        let mut c = Case::new("big-obo");
+        c.op(format!("bigobo 70000 {} {}", rng.next(), if idx == 5 { "std" } else { "transitive" }));
+        c.stat("big_obo_files", 1);
+        c.nontrivial = true;
+        return c;
+    }
     if idx % 8 == 7 {
         return malformed(rng);
     }
